@@ -157,7 +157,7 @@ Definition rule_of_name (s : str) : option rule :=
 Definition apply_rule (r : rule) (t : tag) : bool :=
   match r with
   | RPrivate => (fst t) mod private_mod =? private_rem
-  | RPixel => tag_eqb t pixel_tag
+  | RPixel => (fst t =? pixel_group) && existsb (N.eqb (snd t)) pixel_elems
   | ROverlay => (N.land (fst t) overlay_mask =? overlay_group) && (snd t =? overlay_elem)
   | RLut => (fst t =? lut_group) && existsb (N.eqb (snd t)) lut_elems
   end.
